@@ -175,6 +175,8 @@ def run(ctx):
             c = [ctx.rng.randint(1, 40) for _ in range(ctx.rng.randint(3, 30))]
             cminr = ctx.rng.choice([[1, 1], [2, 1], [3, 1], [5, 2], [7, 2]])
             cmin = cminr[0] / cminr[1]
+            c += [int(cmin), int(cmin) + 1, max(1, int(cmin) - 1)]       # counts just below / at / above the threshold (and within 1/2 of it)
+            ctx.rng.shuffle(c)
             sel = [x for x in c if x >= cmin]
             ev = dict(op="MleSelect", c=c, cmin=cminr, sel=sel)
             if len(sel) >= 2 and any(x > cmin for x in sel):
